@@ -156,3 +156,15 @@ Definition fresh_answer (h : list N -> N) (rp pp : nat) (fm : smap) (k : key) : 
 (* no operation of the history touches member k *)
 Definition untouched (k : key) (ops : list (op val)) : Prop :=
   forall o, In o ops -> match o with OInsert k' _ | ORemove k' => k' <> k | _ => True end.
+
+(* the member lists from which the observed fresh rings were built are right (the part of ok_trace that
+   does not concern the ring under test); used to state that the oracle accepts every model run *)
+Fixpoint fms_ok (m : smap) (ops : list (op val)) (os : list obs) : bool :=
+  match ops with
+  | [] => true
+  | o :: ops' =>
+      match o with
+      | OLookup _ => match os with BLook _ _ fm :: _ => enumerates fm m | _ => false end
+      | _ => true
+      end && fms_ok (sm_step m o) ops' (tl os)
+  end.
